@@ -28,13 +28,13 @@ struct has_shared<M, std::void_t<decltype(std::declval<M&>().lock_shared())>>: s
 
 enum Holder { H_NONE, H_X, H_S, H_MODIFY, H_DETACH };
 enum Behav { B_HOLD, B_DESTROY, B_UNLOCK, B_MOVE_CTOR, B_MOVE_ASSIGN };
-enum Cont { C_TRY, C_TRY_FOR, C_TRY_UNTIL, C_STRY, C_STRY_FOR, C_STRY_UNTIL };
+enum Cont { C_TRY, C_TRY_FOR, C_TRY_UNTIL, C_STRY, C_STRY_FOR, C_STRY_UNTIL, C_LOCK, C_LOCK_SHARED, C_CONST_LOCK };
 const char* holdern[] = {"no holder", "holder: exclusive handle", "holder: shared handle", "holder: inside modify()",
                          "holder: inside modify_detach()"};
 const char* behavn[] = {"held until the attempt is over", "destroyed concurrently", "unlock()ed concurrently",
                         "move-constructed then destroyed concurrently", "move-assigned then destroyed concurrently"};
 const char* contn[] = {"try_lock", "try_lock_for", "try_lock_until", "try_lock_shared", "try_lock_shared_for",
-                       "try_lock_shared_until"};
+                       "try_lock_shared_until", "lock (blocking)", "lock_shared (blocking)", "const lock() (blocking)"};
 
 struct Ctx {
     Event held, done, released;
@@ -202,7 +202,7 @@ struct Gen {
             ids.push_back(spawn([w, sp, enabled, mtx, obj, &cx] {
                 if (sp.holder != H_NONE) cx.held.wait();
                 uint64_t ops0 = my_lock_ops(), blk0 = my_block_count();
-                bool shared_form = sp.cont >= C_STRY;
+                bool shared_form = (sp.cont >= C_STRY && sp.cont <= C_STRY_UNTIL) || sp.cont == C_LOCK_SHARED || sp.cont == C_CONST_LOCK;
                 bool timed = sp.cont == C_TRY_FOR || sp.cont == C_TRY_UNTIL || sp.cont == C_STRY_FOR || sp.cont == C_STRY_UNTIL;
                 // expectation when the holder keeps its handle for the whole attempt
                 int expect = -1;
@@ -241,6 +241,29 @@ struct Gen {
                         if (sp.cont == C_STRY_UNTIL) {
                             auto c = w->try_lock_shared_until(std::chrono::steady_clock::now() + 5ms);
                             check_contender(c, enabled, mtx, obj, true, ops0, blk0, true, expect);
+                        }
+                    }
+                }
+                // blocking forms: must return a non-null handle holding the lock (or, disabled, without touching it)
+                if constexpr (HasExcl) {
+                    if (sp.cont == C_LOCK) {
+                        auto c = w->lock();
+                        MC_CHECK(bool(c), "null-handle", "lock() returned a null handle");
+                        check_contender(c, enabled, mtx, obj, false, ops0, blk0, true, 1);
+                    }
+                }
+                if constexpr (HasSharedSide) {
+                    if (sp.cont == C_LOCK_SHARED) {
+                        auto c = w->lock_shared();
+                        MC_CHECK(bool(c), "null-handle", "lock_shared() returned a null handle");
+                        check_contender(c, enabled, mtx, obj, true, ops0, blk0, true, 1);
+                    }
+                    if constexpr (HasExcl) {  // shared_guarded / shared_guarded_opt have a const lock()
+                        if (sp.cont == C_CONST_LOCK) {
+                            const W& cw = *w;
+                            auto c = cw.lock();
+                            MC_CHECK(bool(c), "null-handle", "const lock() returned a null handle");
+                            check_contender(c, enabled, mtx, obj, true, ops0, blk0, true, 1);
                         }
                     }
                 }
@@ -294,7 +317,28 @@ struct Gen {
                 conts.push_back(C_STRY_UNTIL);
             }
         }
+        std::vector<int> blocking;
+        if (HasExcl) blocking.push_back(C_LOCK);
+        if (HasSharedSide) blocking.push_back(C_LOCK_SHARED);
+        if (HasExcl && HasSharedSide) blocking.push_back(C_CONST_LOCK);
         for (int en = 1; en >= (IsOpt ? 0 : 1); --en) {
+            // blocking acquisitions: against a concurrently releasing holder (enabled), against a holder that
+            // keeps its handle (disabled mode only: must not wait), and alone
+            for (int h : holders)
+                for (int b = B_HOLD; b <= B_UNLOCK; b++)
+                    for (int c : blocking) {
+                        if (h == H_NONE && b != B_HOLD) continue;
+                        if ((h == H_MODIFY || h == H_DETACH)) continue;
+                        if (en && h != H_NONE && b == B_HOLD) continue;  // would rightly wait for ever
+                        if (!en && b != B_HOLD) continue;
+                        Spec sp{h, b, c, false};
+                        Item it;
+                        it.name = name + (IsOpt ? (en ? "(locking on)" : "(locking off)") : "") + " | " + holdern[h] +
+                            (h != H_NONE ? std::string(", ") + behavn[b] : "") + " | contender: " + contn[c];
+                        it.body = [sp, en] { body(sp, en); };
+                        it.bounds = hx::tier_bounds(o, 3, 6);
+                        out.push_back(it);
+                    }
             for (int h : holders)
                 for (int b = B_HOLD; b <= B_MOVE_ASSIGN; b++) {
                     if ((h == H_NONE) && b != B_HOLD) continue;
